@@ -20,9 +20,22 @@ pub fn case(ctx: &Ctx, idx: u64) -> CaseOut {
     } else {
         PROFILES[(idx / 2 % PROFILES.len() as u64) as usize]
     };
-    let max_dep = if ctx.thorough() { *rng.pick(&[6, 12, 25]) } else { *rng.pick(&[4, 8, 12]) };
+    let max_dep = if ctx.thorough() { *rng.pick(&[6, 12, 25, 40]) } else { *rng.pick(&[4, 8, 12]) };
     let tag = format!("n{}c{}", ctx.seed, idx);
-    let input = gen::generate(&mut rng, &GenOpts::new(profile, max_dep), &tag);
+    let mut input = gen::generate(&mut rng, &GenOpts::new(profile, max_dep), &tag);
+    if idx % 50 == 7 {
+        let ndep = rng.usize(20, 90);
+        let (ws, ld) = (rng.chance(1, 2), rng.chance(1, 3));
+        input = gen::line_network(&mut rng, &tag, ndep, ws, ld);
+        out.count("busy_line_networks", 1);
+    }
+    if idx % 1000 == 5 {
+        let ndep = rng.usize(260, 340);
+        let (ws, ld) = (rng.chance(1, 2), false);
+        input = gen::line_network(&mut rng, &tag, ndep, ws, ld);
+        out.count("full_day_timetables", 1);
+        crate::orch::announce_cpu_budget(600.0);
+    }
     let inst = Inst::parse(&input).expect("reference model cannot parse generated instance");
     out.count(&format!("profile.{}", profile.name()), 1);
 
